@@ -38,6 +38,7 @@ type memoAccess struct {
 func ruleMemo1(c *Ctx) {
 	// types of package-level variables (process-lifetime containers)
 	lifetime := map[string]bool{}
+	lifetimeRoot := map[string]bool{}
 	for _, pp := range c.P.Pkgs {
 		pk := c.P.SSA.Package(pp.Types)
 		if pk == nil {
@@ -54,6 +55,36 @@ func ruleMemo1(c *Ctx) {
 			}
 			if n, ok := t.(*types.Named); ok && n.Obj().Pkg() != nil && strings.HasPrefix(n.Obj().Pkg().Path(), core.ModPath) {
 				lifetime[n.String()] = true
+				lifetimeRoot[n.String()] = true
+			}
+		}
+	}
+	// the csvq struct types such an object is made of (embedded / field containers: RegExpMap embeds *SyncMap) — their
+	// methods get summaries too, but only containers that hang off a package-level object are judged
+	for changed := true; changed; {
+		changed = false
+		for _, pp := range c.P.Pkgs {
+			for _, name := range pp.Types.Scope().Names() {
+				tn, ok := pp.Types.Scope().Lookup(name).(*types.TypeName)
+				if !ok || !lifetime[tn.Type().String()] {
+					continue
+				}
+				st, ok := tn.Type().Underlying().(*types.Struct)
+				if !ok {
+					continue
+				}
+				for i := 0; i < st.NumFields(); i++ {
+					ft := st.Field(i).Type()
+					if p, ok := ft.(*types.Pointer); ok {
+						ft = p.Elem()
+					}
+					if n, ok := ft.(*types.Named); ok && n.Obj().Pkg() != nil && strings.HasPrefix(n.Obj().Pkg().Path(), core.ModPath) && !lifetime[n.String()] {
+						if _, isStruct := n.Underlying().(*types.Struct); isStruct {
+							lifetime[n.String()] = true
+							changed = true
+						}
+					}
+				}
 			}
 		}
 	}
@@ -205,6 +236,9 @@ func ruleMemo1(c *Ctx) {
 			if len(sameCont) == 0 {
 				continue
 			}
+			if !memoOnLifetimeRoot(st.container, lifetimeRoot) {
+				continue // a container of a per-scope object (variables, cursors …): declarations, not memos
+			}
 			n++
 			c.Touch(fn)
 			okey := c.KeyAt(fn, fmt.Sprintf("memo %s #%d: the entry is a function of its key", memoLabel(st.container), i+1))
@@ -301,4 +335,287 @@ func memoRebase(container string, g *ssa.Function, args []ssa.Value, rootOf func
 		return r + strings.TrimPrefix(container, prefix)
 	}
 	return container
+}
+
+// memoOnLifetimeRoot: the container hangs off a package-level variable or off the receiver of a method of a
+// package-level variable's type
+func memoOnLifetimeRoot(container string, roots map[string]bool) bool {
+	if strings.HasPrefix(container, "global:") {
+		return true
+	}
+	c := strings.TrimPrefix(container, "recv:")
+	for t := range roots {
+		if strings.HasPrefix(c, t+".") || c == t {
+			return true
+		}
+	}
+	return false
+}
+
+// R-MEMO-2: a per-scope memo is inherited only together with what its entries were computed from.
+
+func init() {
+	Register(&Rule{ID: "R-MEMO-2", Props: []string{"C15", "C03"}, Floor: 3,
+		Doc:      "a memo kept in a field of lib/query.ReferenceScope is shared only between scopes that agree on its inputs: for every map / sync.Map field F of ReferenceScope that some function fills with a computed value (directly, or through a store wrapper judged at its call sites), the other fields G of the same scope object that the stored value is computed from are collected (the resolved file path is computed from scope.Tx; a looked-up function would be computed from scope.Blocks); every function that builds a new scope and lets it inherit F from a parent (N.F = P.F) must let it inherit each such G from the same parent unchanged. A derived scope with its own block chain (CreateChild: a function invocation, an IF / WHILE body) that shares a memo computed from the parent's chain resolves names as the caller does — local declarations stop shadowing outer ones. Decides the agreement of memo and inputs across scope constructors, not the contents",
+		Controls: []string{"CtlMemoInheritedWithoutInputs"},
+		Run:      ruleMemo2})
+}
+
+func ruleMemo2(c *Ctx) {
+	check := func(structT types.Type, fns []*ssa.Function, label string) int {
+		st, ok := structT.Underlying().(*types.Struct)
+		if !ok {
+			return 0
+		}
+		ptrT := types.NewPointer(structT)
+		fieldIdx := func(name string) int {
+			for i := 0; i < st.NumFields(); i++ {
+				if st.Field(i).Name() == name {
+					return i
+				}
+			}
+			return -1
+		}
+		isMemoField := func(i int) bool {
+			t := st.Field(i).Type()
+			if p, ok := t.(*types.Pointer); ok {
+				t = p.Elem()
+			}
+			if _, ok := t.Underlying().(*types.Map); ok {
+				return true
+			}
+			return strings.HasSuffix(t.String(), "sync.Map")
+		}
+		// scopeField: v is (a load of) field i of scope object X; returns X, i
+		scopeField := func(v ssa.Value) (ssa.Value, int) {
+			switch x := v.(type) {
+			case *ssa.UnOp:
+				if fa, ok := x.X.(*ssa.FieldAddr); ok && x.Op == token.MUL && types.Identical(fa.X.Type(), ptrT) {
+					return fa.X, fa.Field
+				}
+			case *ssa.FieldAddr:
+				if types.Identical(x.X.Type(), ptrT) {
+					return x.X, x.Field
+				}
+			}
+			return nil, -1
+		}
+		// inputsOf: the fields of X that v is computed from
+		var inputsOf func(v ssa.Value, X ssa.Value, skipField int, seen map[ssa.Value]bool, out map[int]bool)
+		inputsOf = func(v ssa.Value, X ssa.Value, skipField int, seen map[ssa.Value]bool, out map[int]bool) {
+			if v == nil || seen[v] {
+				return
+			}
+			seen[v] = true
+			if obj, f := scopeField(v); obj != nil && obj == X {
+				if f != skipField {
+					out[f] = true
+				}
+				return
+			}
+			switch x := v.(type) {
+			case *ssa.Const, *ssa.Function, *ssa.Builtin, *ssa.Parameter, *ssa.FreeVar, *ssa.Global:
+				return
+			case *ssa.Alloc:
+				vals, _ := core.StoresTo(x)
+				for _, s := range vals {
+					inputsOf(s, X, skipField, seen, out)
+				}
+				return
+			}
+			if call, ok := v.(*ssa.Call); ok {
+				// an immediately invoked closure, or a csvq helper that is handed the scope: the fields of a scope
+				// object it reads are inputs (by type: inside the callee the object is a captured variable / parameter)
+				var bodies []*ssa.Function
+				for _, o := range core.Origins(call.Common().Value, false) {
+					if mc, ok := o.(*ssa.MakeClosure); ok {
+						if f, ok := mc.Fn.(*ssa.Function); ok {
+							bodies = append(bodies, f)
+						}
+					}
+				}
+				if g := call.Common().StaticCallee(); g != nil && inModule(g) && g.Blocks != nil {
+					for _, a := range call.Common().Args {
+						if a == X {
+							bodies = append(bodies, g)
+						}
+					}
+				}
+				for _, body := range bodies {
+					for _, b := range body.Blocks {
+						for _, in := range b.Instrs {
+							if fa, ok := in.(*ssa.FieldAddr); ok && types.Identical(fa.X.Type(), ptrT) && fa.Field != skipField {
+								out[fa.Field] = true
+							}
+						}
+					}
+				}
+			}
+			if in, ok := v.(ssa.Instruction); ok {
+				for _, op := range in.Operands(nil) {
+					if op != nil && *op != nil {
+						inputsOf(*op, X, skipField, seen, out)
+					}
+				}
+			}
+		}
+		// memo stores: field → input fields (names), with one example site
+		type memoInfo struct {
+			inputs map[int]bool
+			site   string
+		}
+		memos := map[int]*memoInfo{}
+		note := func(f int, in map[int]bool, site string) {
+			m := memos[f]
+			if m == nil {
+				m = &memoInfo{inputs: map[int]bool{}, site: site}
+				memos[f] = m
+			}
+			for k := range in {
+				m.inputs[k] = true
+			}
+		}
+		// wrappers: function stores params (key, val) into field f of its scope parameter
+		type wrapper struct{ f, scopeIdx, valIdx int }
+		wrappers := map[*ssa.Function]wrapper{}
+		paramIdx := func(fn *ssa.Function, v ssa.Value) int {
+			for i, p := range fn.Params {
+				if ssa.Value(p) == core.Strip(v) {
+					return i
+				}
+			}
+			return -1
+		}
+		storeSites := func(fn *ssa.Function, visit func(in ssa.Instruction, X ssa.Value, f int, val ssa.Value)) {
+			for _, b := range fn.Blocks {
+				for _, in := range b.Instrs {
+					switch x := in.(type) {
+					case *ssa.MapUpdate:
+						if X, f := scopeField(x.Map); X != nil && isMemoField(f) {
+							visit(in, X, f, x.Value)
+						}
+					case ssa.CallInstruction:
+						name := c.P.CalleeName(x)
+						if name == "(*sync.Map).Store" || name == "(*sync.Map).LoadOrStore" {
+							if X, f := scopeField(x.Common().Args[0]); X != nil && isMemoField(f) {
+								visit(in, X, f, x.Common().Args[2])
+							}
+						}
+					}
+				}
+			}
+		}
+		for _, fn := range fns {
+			storeSites(fn, func(in ssa.Instruction, X ssa.Value, f int, val ssa.Value) {
+				if si, vi := paramIdx(fn, X), paramIdx(fn, val); si >= 0 && vi >= 0 {
+					wrappers[fn] = wrapper{f, si, vi}
+					return
+				}
+				ins := map[int]bool{}
+				inputsOf(val, X, f, map[ssa.Value]bool{}, ins)
+				note(f, ins, c.Pos(in))
+			})
+		}
+		for _, fn := range fns {
+			for _, call := range core.Calls(fn) {
+				g := call.Common().StaticCallee()
+				w, ok := wrappers[g]
+				if !ok || w.scopeIdx >= len(call.Common().Args) || w.valIdx >= len(call.Common().Args) {
+					continue
+				}
+				X := call.Common().Args[w.scopeIdx]
+				ins := map[int]bool{}
+				inputsOf(call.Common().Args[w.valIdx], X, w.f, map[ssa.Value]bool{}, ins)
+				note(w.f, ins, c.Pos(call))
+			}
+		}
+		// constructors: stores N.F = P.F
+		n := 0
+		var memoFields []int
+		for f := range memos {
+			memoFields = append(memoFields, f)
+		}
+		sort.Ints(memoFields)
+		for _, fn := range fns {
+			// per new object N: field → (parent object, parent field) when inherited, or nil
+			type inh struct {
+				parent ssa.Value
+				st     *ssa.Store
+			}
+			stores := map[ssa.Value]map[int]inh{}
+			var order []ssa.Value
+			for _, b := range fn.Blocks {
+				for _, in := range b.Instrs {
+					s, ok := in.(*ssa.Store)
+					if !ok {
+						continue
+					}
+					fa, ok := s.Addr.(*ssa.FieldAddr)
+					if !ok || !types.Identical(fa.X.Type(), ptrT) {
+						continue
+					}
+					N := fa.X
+					if stores[N] == nil {
+						stores[N] = map[int]inh{}
+						order = append(order, N)
+					}
+					var parent ssa.Value
+					if P, pf := scopeField(s.Val); P != nil && pf == fa.Field && P != N {
+						parent = P
+					}
+					if old, seen := stores[N][fa.Field]; !seen || old.parent == nil && parent != nil {
+						stores[N][fa.Field] = inh{parent, s}
+					}
+				}
+			}
+			for _, N := range order {
+				for _, f := range memoFields {
+					e, ok := stores[N][f]
+					if !ok || e.parent == nil {
+						continue
+					}
+					n++
+					c.Touch(fn)
+					key := c.KeyAt(fn, fmt.Sprintf("%s.%s is inherited together with its inputs", label, st.Field(f).Name()))
+					var missing []string
+					var ins []int
+					for g := range memos[f].inputs {
+						ins = append(ins, g)
+					}
+					sort.Ints(ins)
+					var names []string
+					for _, g := range ins {
+						names = append(names, st.Field(g).Name())
+						ge, has := stores[N][g]
+						if !has || ge.parent != e.parent {
+							missing = append(missing, st.Field(g).Name())
+						}
+					}
+					if len(missing) > 0 {
+						c.Bad(key, c.Pos(e.st), fmt.Sprintf("the new scope shares the memo %s of its parent, whose entries are computed from the parent's %s (filled at %s), but it does not inherit %s unchanged: entries computed for the parent's %s are used where the new scope's own would give another answer (a declaration in the new block no longer shadows the outer one)", st.Field(f).Name(), strings.Join(names, ", "), memos[f].site, strings.Join(missing, ", "), strings.Join(missing, ", ")))
+					} else {
+						c.Ok(key, c.Pos(e.st), "inputs of the memo ("+strings.Join(names, ", ")+") are inherited from the same parent")
+					}
+				}
+			}
+		}
+		_ = fieldIdx
+		return n
+	}
+	rsT := c.P.Type("lib/query", "ReferenceScope")
+	if rsT == nil {
+		c.Unknown("anchor: lib/query.ReferenceScope", "-", "cannot-analyse: type not found")
+		return
+	}
+	sites := check(rsT, c.P.FuncsIn(false, "lib/query"), "ReferenceScope")
+	if ctlT := c.P.Type(core.ControlPkg, "ctlMemoScope"); ctlT != nil {
+		var ctlFns []*ssa.Function
+		for _, fn := range c.P.SrcFuncs() {
+			if c.P.IsControl(fn) {
+				ctlFns = append(ctlFns, fn)
+			}
+		}
+		check(ctlT, ctlFns, "ctlMemoScope")
+	}
+	c.Sites += sites
 }
